@@ -9,6 +9,7 @@ pub fn run(ctx: &Ctx) -> Outcome {
         run_and_report(ctx, &tx_flow(ctx.tier, i, m, d), &mut out);
     }
     run_and_report(ctx, &tx_grow(ctx.tier, ctx.tier.pick(5, 7)), &mut out);
+    run_and_report(ctx, &tx_empty_write(ctx.tier, ctx.tier.pick(6, 8)), &mut out);
     // the write half and the connection on different threads (a multi-threaded runtime)
     {
         use crate::solo::threads::*;
